@@ -82,7 +82,8 @@ type URIParamsLst struct {
 
 // Reset re-initializes the parsed parameter list
 func (l *URIParamsLst) Reset() {
-	for i := 0; i < l.PNo(); i++ {
+	// <= : clear also a possible partially parsed param (Params[N])
+	for i := 0; i <= l.N && i < len(l.Params); i++ {
 		l.Params[i].Reset()
 	}
 	t := l.Params
